@@ -13,6 +13,8 @@ import (
 	"strings"
 	"sync"
 	"time"
+	"unicode/utf16"
+	"unicode/utf8"
 
 	"github.com/ja7ad/otp"
 
@@ -36,6 +38,9 @@ type restCase struct {
 	// 100.0 / 1e2 / "100", keys in another order, fields the endpoint does not use present with a wrong type).
 	// Such a request is not well-formed; it may be refused (status >= 400) or must be answered for the values it spells.
 	RawBody string `json:"raw_body,omitempty"`
+	// MustAnswer: the RawBody is the same JSON text at the lexical level (string escapes, white space between tokens),
+	// which every JSON reader must read as the same values: a refusal is not accepted for it
+	MustAnswer bool `json:"must_answer,omitempty"`
 	// RawPath, when set, is the request target actually sent: another spelling of the endpoint's path (doubled
 	// slash, dot segments, percent-encoded letters). Same two-answer rule: refused, or answered correctly.
 	RawPath string `json:"raw_path,omitempty"`
@@ -186,7 +191,7 @@ func judgeRESTWith(c *Ctx, srv *server, k restCase, pre *httpResult, pt0, pt1 in
 			return
 		}
 	}
-	if (k.RawBody != "" || k.RawPath != "") && res.Status >= 300 {
+	if (k.RawBody != "" || k.RawPath != "") && res.Status >= 300 && !k.MustAnswer {
 		r.Count("respelled_requests_refused", 1)
 		return
 	}
@@ -740,6 +745,86 @@ func respell(rng *gen.RNG, k restCase) (restCase, bool) {
 }
 
 // respellPath gives the endpoint's path in a non-canonical spelling.
+// relex writes the case's JSON body in another lexical form that denotes exactly the same values (RFC 8259): characters
+// of strings - keys and values - as \uXXXX escapes (non-BMP characters as surrogate pairs), "/" as "\/", and white space
+// between the tokens. Unlike the respellings above this is not a matter of taste: the request is the same request.
+func relex(rng *gen.RNG, k restCase) (restCase, bool) {
+	if k.F == nil || k.RawBody != "" {
+		return k, false
+	}
+	src := jsonBody(k.F)
+	var sb strings.Builder
+	ws := func() {
+		for rng.Intn(3) == 0 {
+			sb.WriteString(gen.Pick(rng, []string{" ", "\n", "\t", "\r", "  "}))
+		}
+	}
+	in := false
+	for i := 0; i < len(src); {
+		ch := src[i]
+		if !in {
+			if ch == '"' {
+				in = true
+				sb.WriteByte(ch)
+				i++
+				continue
+			}
+			if strings.IndexByte("{}[]:,", ch) >= 0 {
+				ws()
+				sb.WriteByte(ch)
+				ws()
+			} else {
+				sb.WriteByte(ch)
+			}
+			i++
+			continue
+		}
+		switch {
+		case ch == '\\':
+			n := 2 // an escape the encoder wrote: kept as it is
+			if i+1 < len(src) && src[i+1] == 'u' {
+				n = 6
+			}
+			sb.Write(src[i : i+n])
+			i += n
+		case ch == '"':
+			in = false
+			sb.WriteByte(ch)
+			i++
+		case ch < 0x80:
+			switch rng.Intn(5) {
+			case 0:
+				fmt.Fprintf(&sb, "\\u%04x", ch)
+			case 1:
+				fmt.Fprintf(&sb, "\\u%04X", ch)
+			default:
+				if ch == '/' && rng.Bool() {
+					sb.WriteString("\\/")
+				} else {
+					sb.WriteByte(ch)
+				}
+			}
+			i++
+		default:
+			rn, size := utf8.DecodeRune(src[i:])
+			if rn == utf8.RuneError || rng.Intn(3) > 0 {
+				sb.Write(src[i : i+size])
+			} else if rn > 0xFFFF {
+				r1, r2 := utf16.EncodeRune(rn)
+				fmt.Fprintf(&sb, "\\u%04x\\u%04x", r1, r2)
+			} else {
+				fmt.Fprintf(&sb, "\\u%04x", rn)
+			}
+			i += size
+		}
+	}
+	k.RawBody = sb.String()
+	k.MustAnswer = true
+	k.Framing = ""
+	k.Note = "the same JSON text in another lexical form (string escapes, white space between tokens); " + k.Note
+	return k, true
+}
+
 func respellPath(rng *gen.RNG, k restCase) restCase {
 	ep := k.EP
 	first := fmt.Sprintf("%%%02x", ep[0])
@@ -1001,6 +1086,17 @@ func runC18On(c *Ctx, binEnv string, n int, conc []int) {
 		part := cases[pi*per : (pi+1)*per]
 		monParallel(len(part), g, func(i int) { judgeREST(c, srv, part[i]) })
 		c.R.Count(fmt.Sprintf("phase_client_goroutines=%d", g), len(part))
+	}
+	{
+		lrng := c.RNG.Fork(1888)
+		nl := 0
+		for _, k := range c18Cases(c, n/4+100) {
+			if rk, ok := relex(lrng, k); ok {
+				judgeREST(c, srv, rk)
+				nl++
+			}
+		}
+		c.R.Count("requests_in_another_lexical_form", nl)
 	}
 	c18CrossEndpoint(c, srv, n/20)
 	c18Pipelined(c, srv, c18Cases(c, n/8+40))
